@@ -57,6 +57,17 @@ func TestVerifFragSender(t *testing.T) { //nolint:cyclop,gocognit
 		mtu := 100 + rng.Intn(1400)
 		pairs = append(pairs, [2]int{rng.Intn(5 * mtu), mtu})
 	}
+	// "for every message length": the 24-bit length / offset fields around their byte boundaries, up to the largest
+	// message the format can express (reassembly is exercised where the receiver's fixed limits - 1000 fragments,
+	// 2 MB - admit the message)
+	for _, l := range []int{255, 256, 65535, 65536, 65537, 70000, 131071, 131072, 196608, 1<<20 + 3, 1<<24 - 1} {
+		for _, mtu := range []int{1200, 16000} {
+			pairs = append(pairs, [2]int{l, mtu})
+		}
+	}
+	for i := 0; i < 6; i++ {
+		pairs = append(pairs, [2]int{65536 + rng.Intn(1<<20), 1100 + rng.Intn(15000)})
+	}
 	for _, pr := range pairs {
 		l, mtu := pr[0], pr[1]
 		out.Pairs++
@@ -99,6 +110,9 @@ func TestVerifFragSender(t *testing.T) { //nolint:cyclop,gocognit
 		if len(frags) == 0 {
 			viol("len %d mtu %d: no fragment emitted", l, mtu)
 		}
+		if len(frags) >= 900 || l >= 1900000 {
+			continue // beyond the receiver's buffering limits (C08)
+		}
 		// receiver: any arrival order with duplicates
 		for k := 0; k < 3; k++ {
 			out.Orders++
@@ -123,7 +137,10 @@ func TestVerifFragSender(t *testing.T) { //nolint:cyclop,gocognit
 				}
 			}
 			if pops != 1 || len(got) < handshake.HeaderLength || !bytes.Equal(got[handshake.HeaderLength:], body) {
-				viol("len %d mtu %d order %v: receiver surfaced %d messages / wrong bytes", l, mtu, order, pops)
+				if len(order) > 40 {
+					order = order[:40]
+				}
+				viol("len %d mtu %d order %v..: receiver surfaced %d messages / wrong bytes", l, mtu, order, pops)
 			}
 		}
 	}
